@@ -28,7 +28,7 @@ fn find_jump(jit: &JitCompiler, loc: usize) -> Option<isize> {
 
 fn any_xstate() -> XState {
     XState { r: kani::any(), flags_valid: false, zf: false, sf: false, cf: false, of: false,
-             stack: [0; 8], sp_words: 0, load_data: kani::any(), access: XAccess::None, naccess: 0 }
+             stack: [0; 8], sp_words: 0, load_data: kani::any(), access: XAccess::None, prev_access: XAccess::None, naccess: 0 }
 }
 
 fn regs_same_except(a: &[u64; 11], b: &[u64; 11], skip_from: usize, skip_to: usize) -> bool {
@@ -41,9 +41,15 @@ fn regs_same_except(a: &[u64; 11], b: &[u64; 11], skip_from: usize, skip_to: usi
     ok
 }
 
-pub fn run_arm(opc: u8, fuel: usize) {
+pub fn run_arm(opc: u8, fuel: usize) { run_arm_dst(opc, fuel, None) }
+
+/// `dst_fixed`: the heavy mul/div/mod arms are proved once per destination register (the shape of the
+/// emitted sequence - pushes/pops around rax/rdx - depends on it); together the harnesses cover all of them
+pub fn run_arm_dst(opc: u8, fuel: usize, dst_fixed: Option<u8>) { run_arm_fixed(opc, fuel, dst_fixed, None) }
+
+pub fn run_arm_fixed(opc: u8, fuel: usize, dst_fixed: Option<u8>, src_fixed: Option<u8>) {
     crate::arith::reset();
-    let insn = ebpf::Insn { opc, dst: kani::any(), src: kani::any(), off: kani::any(), imm: kani::any() };
+    let insn = ebpf::Insn { opc, dst: match dst_fixed { Some(d) => d, None => kani::any() }, src: match src_fixed { Some(x) => x, None => kani::any() }, off: kani::any(), imm: kani::any() };
     let next = ebpf::Insn { opc: 0, dst: kani::any(), src: kani::any(), off: kani::any(), imm: kani::any() };
     let si = SInsn { opc: insn.opc, dst: insn.dst, src: insn.src, off: insn.off, imm: insn.imm };
     let n: usize = kani::any();
@@ -55,6 +61,8 @@ pub fn run_arm(opc: u8, fuel: usize) {
     // interpreter adds imm as u32; with a negative imm the interpreter reports out-of-bounds for every
     // packet < 2 GiB, which is outside the claim
     kani::assume(!is_ldabs_ind || insn.imm >= 0);
+    // a tail call is refused by the verifier (C06): the JIT arm is `unimplemented!()`
+    kani::assume(opc != OP_TAIL_CALL);
     kani::assume(KNOWN_FINDING_EXCLUSION(&insn, pc));
     kani::cover!(true, "requires: precondition satisfiable");
     let helper: Option<ebpf::Helper> = if kani::any() { Some(helper_fn) } else { None };
@@ -74,7 +82,8 @@ pub fn run_arm(opc: u8, fuel: usize) {
     let mut jit2 = JitCompiler::new();
     jit2.pc_locs = crate::vec![0; n + 1];
     let mut env2 = Env { insns: [insn.clone(), next.clone()], nfetch: 0, fetch_idx: [0, 0], n_insns: n };
-    let r2 = jit2.arm(&mut mem2, &mut env2, &helpers, pc);
+    let helpers2: HashMap<u32, ebpf::Helper> = HashMap::with(helper);
+    let r2 = jit2.arm(&mut mem2, &mut env2, &helpers2, pc);
     kani::cover!(true, "end of compilation reachable");
     let clause: u8 = kani::any();
     let unregistered = opc == OP_CALL && insn.src == 0 && helper.is_none();
@@ -144,12 +153,14 @@ pub fn run_arm(opc: u8, fuel: usize) {
         assert!(st.sp_words == 4 && st.stack[0] == reg[6] && st.stack[1] == reg[7] && st.stack[2] == reg[8] && st.stack[3] == reg[9],
                 "ensures: r6-r9 saved on the native stack before the call");
         assert!(find_jump(&jit, loc) == Some(want.post.pc as isize), "ensures: call target is pc+1+imm");
-        assert!(regs_same_except(&got, &reg, 11, 11), "ensures: the call passes r0-r5 through and leaves r6-r10 in place at entry of the callee");
+        assert!(regs_same_except(&got, &reg, 10, 10), "ensures: the call passes r0-r5 through and leaves r6-r9 in place at entry of the callee");
+        // the call instruction itself pushes 8 more bytes: the callee body must see the same alignment as the caller body
+        assert!(st.r[x86s::RSP].wrapping_sub(8) % 16 == pre_x[x86s::RSP] % 16, "ensures: rsp modulo 16 is the same inside the callee as inside the caller (ABI alignment at helper call sites at every depth)");
         // the callee returns with arbitrary values in the saved registers; the pops must restore them
         st.r[3] = kani::any(); st.r[13] = kani::any(); st.r[14] = kani::any(); st.r[15] = kani::any();
         let (end2, ip2) = run(&mut st, &buf, ip, emitted, fuel);
         let back = ebpf_regs(&st);
-        assert!(end2 == XEnd::Fallthrough && ip2 == emitted && st.sp_words == 0, "ensures: after the return the frame is popped and execution falls through");
+        assert!(end2 == XEnd::Fallthrough && ip2 == emitted && st.sp_words == 0 && st.r[x86s::RSP] == pre_x[x86s::RSP], "ensures: after the return the frame is popped, rsp is back and execution falls through");
         assert!(back[6] == reg[6] && back[7] == reg[7] && back[8] == reg[8] && back[9] == reg[9] && back[10] == reg[10], "ensures: r6-r10 restored after the return");
         return;
     }
